@@ -59,7 +59,7 @@ def cases(draw):
         ln = {"none": None, "pos": max(0, pos() - off) or 1, "small": draw(st.integers(1, 20)), "huge": size * 3 + 7, "zero": 0}[ln]
         ev = draw(st.lists(st.tuples(st.sampled_from(["w", "s"]), st.integers(0, 25), st.sampled_from(["pause", "pause", "resume", "stop"])).map(list), max_size=4))
         reads.append({"off": off, "len": ln, "events": ev})
-    return {"threads": draw(st.sampled_from(["sync", "async"])), "k": k, "n": n, "seg": seg, "size": size, "fill": draw(st.integers(0, 3)), "reads": reads, "guess": draw(st.sampled_from([None, None, 16, 50, 200, 1000])),
+    return {"hsalt": draw(st.integers(0, 15)), "threads": draw(st.sampled_from(["sync", "async"])), "k": k, "n": n, "seg": seg, "size": size, "fill": draw(st.integers(0, 3)), "reads": reads, "guess": draw(st.sampled_from([None, None, 16, 50, 200, 1000])),
             "sched": draw(st.lists(st.integers(0, 12), max_size=draw(st.sampled_from([0, 20, 100]))))}
 
 
